@@ -44,6 +44,7 @@ for m in metas:
     os.makedirs(os.path.dirname(dst), exist_ok=True)
     shutil.copy(src, dst)
     # demo commands are written relative to the repo root; strip a leading cd into the worktree
+    dcmd = re.sub(r"\s+\(.*\)\s*$", "", dcmd)
     for _ in range(4):
         dcmd = re.sub(r"^\s*(cd|cp|export)\s+[^&]+&&\s*", "", dcmd)
     # commands that do not name a package path are meant to run inside the demo directory
